@@ -734,6 +734,24 @@ for _p in ("C05", "C06"):
     ]
     PROPS[_p]["rule"] = PROPS[_p]["rule"] + " Second engine: " + _R_RULE
     PROPS[_p]["assumptions"] = PROPS[_p]["assumptions"] + _R_ASSUME
+    # dispatcher unit: the real sweep dispatchers under a harness-owned clock with jumps (harness/server/er_disp_test.go)
+    PROPS[_p]["units"] += [
+        rapid_unit("RD-" + _p, "^Test" + _p + "_Dispatcher$", quick={"checks": 1600, "shards": 8, "timeout_s": 900},
+                   thorough={"checks": 48000, "shards": 16, "timeout_s": 3600}),
+    ]
+    PROPS[_p]["rule"] = PROPS[_p]["rule"] + (
+        " Dispatcher unit: a fresh leader with the no-check-loop hook; the REAL LockDB.checkTimeOut / checkExpried goroutines are "
+        "started by the harness, which owns LockDB.currentTime and signals them like updateCurrentTime - single seconds and jumps of 2..70 s "
+        "(stall, suspended process, clock step); rapid draws 4..28 steps on 1..3 keys (LOCK Timeout 0..60 s, Expried 1..60 s incl. the "
+        "zero-aof-time flag with E > 5 = long table at once and E >= 44 aged into the long table, unlimited; UNLOCK; clock moves); after every "
+        "move the harness waits for the spawned sweep goroutines and checks a reply-driven ledger: nothing early, every hold past E + 2 s "
+        "ended with EXPRIED, every request past T + 2 s answered, nothing queued on an empty key, at the end every key free (probe LOCK). "
+        "Non-trivial: a jump > 16 s whose catch-up delivered an EXPRIED or TIMEOUT.")
+    PROPS[_p]["assumptions"] = PROPS[_p]["assumptions"] + [
+        "dispatcher unit: second unit only; fresh LockId per request; real time is used only to wait for the spawned goroutines (2 s watchdog = "
+        "inconclusive); a miss is reported only if it recurs on re-execution (on the unchanged tree 0.1-0.2% of the cases show a schedule-dependent "
+        "miss right after a jump that never recurred in 54 000 cases: counted as anomalies, see DESIGN 0.7)",
+    ]
 
 # engine T (Redis-style text commands against a key-value reference store; harness/server/c15t_*.go, notes/C15T.md)
 PROPS["C15"]["units"] += [
